@@ -248,6 +248,10 @@ func (p *Program) verifyFunc(spec *FuncSpec) (u *Unit) {
 	c.curResults = resObjs
 	entry := st.clone()
 	c.entry = entry
+	c.entryBinds = binds
+	if h := unitHooks[u.Name]; h != nil {
+		h(c)
+	}
 	env0 := &SpecEnv{c: c, st: entry, entry: entry, binds: binds, assume: true}
 	for _, r := range spec.Requires {
 		c.assumeSpec("true", r, env0)
@@ -296,10 +300,17 @@ func (p *Program) verifyFunc(spec *FuncSpec) (u *Unit) {
 	for i, pr := range c.panics {
 		c.addObl(Obl{Name: fmt.Sprintf("%s/unreachable-panic#%d", u.Name, i+1), Kind: "unreachable-panic", Guard: pr.St.guard, Goal: allowed, Pos: c.pos(pr.Pos), Text: "panic(" + pr.Msg + ") only under a declared 'panics when' condition"})
 	}
+	if h := unitPosts[u.Name]; h != nil {
+		h(c, u)
+	}
 	if spec.NoSafety {
 		var keep []*Obl
 		for _, ob := range c.obls {
-			if !strings.HasPrefix(ob.Kind, "safe.") && ob.Kind != "unreachable-panic" {
+			kept := false
+			for _, k := range spec.SafetyKeep {
+				kept = kept || ob.Kind == "safe."+k
+			}
+			if kept || (!strings.HasPrefix(ob.Kind, "safe.") && ob.Kind != "unreachable-panic") {
 				keep = append(keep, ob)
 			}
 		}
@@ -315,3 +326,7 @@ func (p *Program) verifyFunc(spec *FuncSpec) (u *Unit) {
 	}
 	return u
 }
+
+// per-unit extension points for property-specific ghost obligations (installed by check files)
+var unitHooks = map[string]func(c *Ctx){}
+var unitPosts = map[string]func(c *Ctx, u *Unit){}
